@@ -578,11 +578,13 @@ def decide(pid, tier, seed, t0):
         path = os.path.join(outdir, "%s-%d.json" % (pid, int(time.time())))
         write_json(path, {"property": pid, "tier": tier, "violations": violations})
         nowit = all(not v.get("witness") for v in violations)
-        for v in violations[:8]:
-            print("failed obligation: %s" % v["id"])
-            print("  " + v["message"] + ((" at " + v["src"]) if v.get("src") else ""))
+        for v in violations[:4]:
+            print("failed obligation: %s" % v["id"][:240])
+            print("  " + v["message"][:200] + ((" at " + v["src"]) if v.get("src") else ""))
             if v.get("witness"):
-                print("  failing input on the real crate: " + json.dumps(v["witness"]["input"])[:400])
+                print("  failing input on the real crate: " + json.dumps(v["witness"]["input"])[:300])
+        if len(violations) > 4:
+            print("  ... and %d more (see the replay file)" % (len(violations) - 4))
         print("VIOLATION property=%s replay=%s%s" % (pid, path, " no-failing-input-found" if nowit else ""))
         return 1
     if inconclusive:
